@@ -26,3 +26,16 @@ pub fn unhex(s: &str) -> Vec<u8> { (0..s.len() / 2).map(|i| u8::from_str_radix(&
 pub fn env_u64(name: &str, default: u64) -> u64 { std::env::var(name).ok().and_then(|x| x.parse().ok()).unwrap_or(default) }
 /// silence the default panic hook (panics of the code under test are observations)
 pub fn quiet_panics() { std::panic::set_hook(Box::new(|_| {})); }
+/// JSON string literal (with quotes) for arbitrary text
+pub fn jstr(s: &str) -> String {
+    let mut o = String::from("\"");
+    for c in s.chars() {
+        match c { '"' => o.push_str("\\\""), '\\' => o.push_str("\\\\"), '\n' => o.push_str("\\n"), '\t' => o.push_str("\\t"), '\r' => o.push_str("\\r"),
+            c if (c as u32) < 0x20 => o.push_str(&format!("\\u{:04x}", c as u32)), c => o.push(c) }
+    }
+    o.push('"'); o
+}
+/// one monitor failure as a JSON object: kind, detail, ops (list of strings) and extra raw fields
+pub fn fail_json(kind: &str, detail: &str, ops: &[String], extra: &str) -> String {
+    format!("{{\"kind\":{},\"detail\":{},\"ops\":[{}]{}}}", jstr(kind), jstr(detail), ops.iter().map(|o| jstr(o)).collect::<Vec<_>>().join(","), extra)
+}
